@@ -626,6 +626,20 @@ def oracle(s, obs, extra):
             if not (f[4] and f[0] < f[3] <= hi + 1):
                 bad.append("SequenceReset %d->%d is not a gap fill over numbers already used (highest %d)" % (f[0], f[3], hi))
                 break
+    # a gap fill tells the peer to skip numbers: it may cover session-level messages and numbers missing in the journal,
+    # never an application message that went out as a new message and that should_replay did not decline (the peer would
+    # lose it for good - e.g. a message sent by another task while the reply was under way)
+    sess_types = {ord(c) for c in "01245A"}
+    gf_holes = set(s.get("holes", []))
+    for t in s.get("tasks", []):
+        if t and t[0] == "in" and t[1] == "resend" and len(t) > 4:
+            gf_holes |= set(t[4] or [])              # numbers the scenario's should_replay declines
+    for f in wire:
+        if not f[2] and f[1] == ord("4") and f[4]:
+            lost = [g for g in new if f[0] <= g[0] < f[3] and g[1] not in sess_types and g[0] not in gf_holes]
+            if lost:
+                bad.append("gap fill %d->%d skips the application message sent under number %d" % (f[0], f[3], lost[0][0]))
+                break
     # every frame is journaled under its number, without a duplicate error: each new message is stored exactly once
     # when it is sent, nothing else is stored, and at the end the row under every number that went out (new message or
     # its retransmission) is that new message
